@@ -45,14 +45,18 @@ META = {
     'design_ref': '§5 C11, §4 M1, §6.3, §6.4',
     'level_text': 'Machine-checked for every reachable state of the run model (serial, thread, process; any number of '
                   'workers, any interleaving): the dispatcher schedules the setup-tasks of a task only while that task\'s '
-                  'run_status is "run" (never for an up-to-date, ignored or unmet task) and a setup-task reports success / '
+                  'run_status is "run" (never for an up-to-date, ignored or unmet task), the trace monitor monLazy holds on every '
+                  'model trace (every touched task is justified), and a setup-task reports success / '
                   'up-to-date before its parent starts; at the end of every run that reaches finish() the teardown '
                   'executions are exactly Runner.teardown over the tasks with teardown in start order (reverse order, '
                   'once each, a failing one does not remove the others) -- shared list for serial/thread, per worker '
                   'process for -n k (full strength since the repair of the finding process-teardown-failure made by this '
                   'check; the behaviour before it and the pinned thread behaviour are kept as counterexample theorems).',
-    'level_note': 'The trace form of laziness (monLazy) is monitored on the implementation but not proved of the model '
-                  '(def C11_lazy_monitor_full); the state form is proved.  Trusted: Lean kernel; '
+    'level_note': 'The laziness monitor monLazy is proved of the model (C11_lazy_monitor) under the decidable hypothesis '
+                  'Bounded inp nTasks (all task names below the monitor\'s parameter; evaluated on every case: hyp:bounded); '
+                  'for arbitrary nTasks the statement is false (C11_lazy_monitor_full_counterexample: the parameter is also '
+                  'the fuel of the monitor\'s closure; an artefact of the monitor, replayed on the real doit).  '
+                  'Trusted: Lean kernel; '
                   'doitdrv; the Python harness (generator, recording reporter, instrumented teardown actions, deterministic '
                   'scheduler, token controller).  Monitors: Lean (driver) with a Python cross-check.',
     'rule': 'random DAGs of 3-8 tasks biased to setup / getargs edges with shared and nested setup-tasks, teardown on ~60% '
@@ -897,6 +901,8 @@ def judge(case, obs, mixed, base_ans, ans, st, shrink_left):
         st.count('driver_unavailable')
     else:
         lean = ans.get('monitor') or {}
+        for k, v in (ans.get('hyp') or {}).items():
+            st.count('hyp:%s=%s' % (k, v))
     failed = failed_monitors(py, lean)
     used = 0.0
     if failed:
